@@ -15,6 +15,7 @@ import (
 	"sync"
 	"sync/atomic"
 	"time"
+	"verif/harness/busy"
 
 	"ergo.services/ergo/act"
 	"ergo.services/ergo/gen"
@@ -151,6 +152,7 @@ func StartNode(name string) (gen.Node, error) {
 	opt.Log.DefaultLogger.Disable = true
 	opt.Log.Level = gen.LogLevelDisabled
 	opt.Network.Mode = gen.NetworkModeDisabled
+	busy.Install()
 	return node.Start(gen.Atom(name), opt, gen.Version{})
 }
 
@@ -212,6 +214,7 @@ type world struct {
 	*gated.World
 	mu   sync.Mutex
 	pids map[int]gen.PID // spec index -> latest pid
+	all  []gen.PID       // every child process there ever was
 }
 
 func asleepOrGone(n gen.Node, pid gen.PID) bool {
@@ -237,6 +240,7 @@ func (r *Runner) Run(scn *Scenario) ([]Line, error) {
 		initFn := func(s *gated.Scripted) error {
 			w.mu.Lock()
 			w.pids[i] = s.PID()
+			w.all = append(w.all, s.PID())
 			w.mu.Unlock()
 			w.Add(gated.Note{Who: label, Kind: "init"})
 			return nil
@@ -257,6 +261,7 @@ func (r *Runner) Run(scn *Scenario) ([]Line, error) {
 				return &gated.Scripted{W: w.World, Label: label, InitFn: func(s *gated.Scripted) error {
 					w.mu.Lock()
 					w.pids[idx] = s.PID()
+					w.all = append(w.all, s.PID())
 					w.mu.Unlock()
 					w.Add(gated.Note{Who: label, Kind: "init"})
 					return nil
@@ -301,6 +306,9 @@ func (r *Runner) Run(scn *Scenario) ([]Line, error) {
 				if !asleepOrGone(r.Node, p) {
 					ok = false
 				}
+			}
+			if busy.Any(supPid) || busy.Any(w.all...) {
+				ok = false // a process is running or terminating (it may have left the table without having sent its exit signals yet)
 			}
 			w.mu.Unlock()
 			n := len(w.Snapshot())
